@@ -15,7 +15,28 @@ def mk_case(ctx, s, tol, origin):
 
 
 def case_from_desc(d):
-    return mk_case(d['ctx'], d['s'], d['tolerant'], d.get('origin', 'replay'))
+    c = mk_case(d['ctx'], d['s'], d['tolerant'], d.get('origin', 'replay'))
+    for k in ('wkw', 'base', 'fault', 'at'):
+        if k in d:
+            c['desc'][k] = d[k]
+    return c
+
+
+WKW = [{'line_number_offset': None}, {'first_line_column_offset': None}, {'column_offset': None},
+       {'line_number_offset': 0}, {'first_line_column_offset': 7, 'column_offset': 2},
+       {'line_number_offset': 10, 'first_line_column_offset': 3}, {'column_offset': 5},
+       {'line_number_offset': None, 'first_line_column_offset': None, 'column_offset': None}]
+
+
+def expected_linecol(d, s, p):
+    """line / column of position p under the walker options of the case (documented defaults 1, 0, 0)"""
+    kw = d.get('wkw') or {}
+    lo = kw.get('line_number_offset'); lo = 1 if lo is None else lo
+    fo = kw.get('first_line_column_offset'); fo = 0 if fo is None else fo
+    co = kw.get('column_offset'); co = 0 if co is None else co
+    k = s.count('\n', 0, p)
+    col = p - (s.rfind('\n', 0, p) + 1)
+    return (k + lo, col + (fo if k == 0 else co))
 
 
 def stream(seed, tier, modes=(False, True), contexts=None, exh_len=None, n_soup=None, n_doc=None, n_fault=None,
@@ -58,6 +79,10 @@ def stream(seed, tier, modes=(False, True), contexts=None, exh_len=None, n_soup=
                 s = docgen.inject_fault(rnd, docgen.gen_doc(rnd, ctx))
                 for tol in modes:
                     cases.append(mk_case(ctx, s, tol, 'fault'))
+    # position-reporting options: explicit None (documented as 'use the default'), zero, unequal column offsets
+    for j, c in enumerate(cases):
+        if j % 7 == 3:
+            c['desc']['wkw'] = WKW[(j // 7) % len(WKW)]
     for c in cases:
         c['nt'] = sum(1 for ch in c['desc']['s'] if ch in '\\{$[%') >= 1 and len(c['desc']['s']) >= 3
     return cases
@@ -67,7 +92,7 @@ def impl_parse(c):
     d = c['desc']
     if d['ctx'] in docgen.UNMODELLED_CONTEXTS:
         return 'BADIN'
-    return P.parse_top(d['s'], d['tolerant'], docgen.make_db(d['ctx']))
+    return P.parse_top(d['s'], d['tolerant'], docgen.make_db(d['ctx']), d.get('wkw'))
 
 
 # ---- projections of the dump line -------------------------------------------------
@@ -92,6 +117,7 @@ def real_parse(d):
     from pylatexenc.latexnodes.parsers import LatexGeneralNodesParser
     db = docgen.make_db(d['ctx'])
     kw = {} if db is None else {'latex_context': db}
+    kw.update(d.get('wkw') or {})          # position-reporting options of the walker (None = "use the default")
     w = LatexWalker(d['s'], tolerant_parsing=d['tolerant'], **kw)
     try:
         nl, _ = w.parse_content(LatexGeneralNodesParser())
